@@ -525,15 +525,19 @@ impl C12 {
     }
 
     fn eco_behaviour(&self, cx: &mut Cx) {
-        if cx.rng.chance(1, 4) {
+        // the kinds of Eco case are stratified over the case index so that every one of them runs in every tier:
+        // every fourth is the redirect case, the others cycle through (mode, timeout variant)
+        let k = cx.idx / 13;
+        if k % 4 == 3 {
             return self.eco_redirect_case(cx);
         }
+        let j = k - k / 4;
         let v6 = cx.rng.bool();
         let timeout = *cx.rng.pick(&[50u64, 150, 400]);
         let d = Duration::from_millis(timeout);
-        let mode = cx.rng.below(3);
+        let mode = j % 3;
         // the read timeout must bound the wait whether or not the write / connect timeouts are set
-        let none_variant = if mode == 0 { cx.rng.below(6) } else { 0 };
+        let none_variant = if mode == 0 { (j / 3) % 6 } else { 0 };
         // variant 4: no settings at all = the documented defaults (4 s each) must be in force
         let timeout = if none_variant == 4 { 4000 } else { timeout };
         let ts = match none_variant {
